@@ -45,9 +45,14 @@ impl Prop for C08 {
 
     fn generate(rng: &mut Rng, ctx: &mut Ctx) -> ProgCase {
         let faults = rng.chance(1, 2);
+        let rnd_sub = rng.chance(1, 5);
         let mut c = loop {
             let stop = rng.chance(1, 4);
-            let mut c = gen_case(rng, ctx, true, stop, false);
+            let mut c = if rnd_sub {
+                crate::props::c03::gen_case_with(rng, ctx, true, stop, false, true)
+            } else {
+                gen_case(rng, ctx, true, stop, false)
+            };
             // make sure INPUT is present most of the time
             let has_input = c.lines.iter().any(|l| crate::ast::print_line_body(&l.stmts).contains("INPUT"));
             if has_input || rng.chance(1, 10) {
@@ -56,6 +61,15 @@ impl Prop for C08 {
                 break c;
             }
         };
+        if rnd_sub {
+            // the subscript is evaluated once per attempt, so a REENTER would draw again: numeric replies only
+            ctx.count("subbatch.rnd_subscript");
+            for r in c.replies.iter_mut() {
+                if !matches!(r.first, crate::model::ReplyItem::Num(_)) {
+                    *r = crate::gen::default_reply();
+                }
+            }
+        }
         if faults {
             ctx.count("subbatch.faulty");
             let n = rng.usize(4);
